@@ -807,6 +807,12 @@ func (p *pp) printArg(arg interface{}, verb rune) {
 			}
 		}
 		p.printValue(f, verb, 0)
+	case w.SafeWrapper, w.UnsafeWrap:
+		// A wrapper inside another wrapper: the outer one has decided,
+		// what the inner one holds is printed as an operand of its own,
+		// before the wrapper's own methods flatten it into a string.
+		p.printArg(f, verb)
+		return
 	case m.RedactableString:
 		defer p.startPreRedactable().restore()
 		p.buf.WriteString(string(f))
